@@ -1283,7 +1283,12 @@ func joinSQL(j *JoinClause) string {
 	sb.WriteString(j.Type)
 	sb.WriteString(" JOIN ")
 	sb.WriteString(tableRefSQL(&j.Right))
-	if j.Condition != nil {
+	if list, ok := j.Condition.(*ListExpression); ok {
+		// a column list is how the parser stores JOIN ... USING (a, b)
+		sb.WriteString(" USING (")
+		sb.WriteString(exprSQL(list))
+		sb.WriteString(")")
+	} else if j.Condition != nil {
 		sb.WriteString(" ON ")
 		sb.WriteString(exprSQL(j.Condition))
 	}
